@@ -182,6 +182,10 @@ CHECKS["C36"] = dict(engine="tlc+vhraft", level="model_checking", ref="4.20", te
                      text="After every reopen the vote, the log entries, the purge point and the applied position equal what was persisted before the crash, and the recovered state machine must equal the commands 1..applied; a deviation is attributed to the recorded finding only when it equals the faithful model's prediction for that history.",
                      note="Trusted: RocksDB durability of completed puts (WAL). Bounded: 3 log positions, histories of 7 (8) calls, one store. Needs the persistent feature (RocksDB from source).")
 
+CHECKS["C38"] = dict(engine="tlc+vhraft", level="model_checking", ref="4.20", technique="TLA+ spec CoordSync.tla: local view vs replicated state with each operation's replicated ClusterCommands transcribed from the handlers and the health loop, sync_from_raft transcribed; ideal (every change replicated) and faithful variants model-checked for InSync; TLC-generated operation histories executed through the real REST handlers (warp::test on cluster_routes) of a real single-node Raft coordinator with a loopback mock worker, comparing the coordinator's view before and after sync_from_raft after every operation",
+                     text="After every acknowledged operation (register, deregister, heartbeat, deploy, group removal, connector create/update/delete) and every sweep with failover, sync_from_raft must not change the coordinator's projected view; a reverted field is attributed to a recorded finding only when the set of reverted fields and the resulting view equal the faithful model's prediction for that history.",
+                     note="Trusted: the mock worker's 2xx answers. Bounded: 2 workers, one group with one pipeline, one connector; histories of 40 (60) operations on 14 (150) fresh single-node Raft clusters; drain / manual migrate / rebalance not driven; the CLI's loop body is mirrored, not executed.")
+
 NOT_APPLICABLE = {
     "C41": "parser totality over arbitrary strings: no state/transition system to specify; a TLA+ model would only enumerate token strings (fuzzing under another name)",
     "C43": "LSP handler robustness over arbitrary text/cursor: per-call robustness, no protocol state in the property; outside model-based verification",
